@@ -60,6 +60,8 @@ type FnEnc struct {
 	curPos   token.Pos
 	loopOrd  int
 	nilChecked map[string][]string
+	writes     []writeRec
+	writePos   []token.Pos
 }
 
 func (f *FnEnc) pos(p token.Pos) token.Position { return f.eng.fset.Position(p) }
@@ -383,6 +385,65 @@ func loopPos(li *loopInfo) token.Pos {
 	return best
 }
 
+// mergeHeap sets out's heap of class k to ite(cond, a's, b's).  When both
+// states share the base term the merge happens cell by cell on the write logs
+// (a store present on one side only becomes a store of the other side's
+// current value, i.e. a no-op there), so no ite over arrays is created.
+func (f *FnEnc) mergeHeap(out, a, b *State, k string, cond string) {
+	ab, bb := a.heaps[k], b.heaps[k]
+	al, bl := a.log[k], b.log[k]
+	if strings.HasPrefix(k, "map:") || ab != bb {
+		ah, bh := ab, bb
+		if !strings.HasPrefix(k, "map:") {
+			ah, bh = f.heap(a, k), f.heap(b, k)
+		}
+		if ah != bh {
+			setHeap(out, k, f.c.define("mH", f.heapSortOf(k), ite(cond, ah, bh)))
+		} else {
+			setHeap(out, k, ah)
+		}
+		return
+	}
+	if len(al) == 0 && len(bl) == 0 {
+		setHeap(out, k, ab)
+		return
+	}
+	// common prefix: same address sequence
+	n := 0
+	for n < len(al) && n < len(bl) && sameAddr(al[n].a, bl[n].a) {
+		n++
+	}
+	sort := k
+	var merged []logEntry
+	for i := 0; i < n; i++ {
+		v := al[i].v
+		if al[i].v != bl[i].v {
+			v = f.c.define("mcell", sort, ite(cond, al[i].v, bl[i].v))
+		}
+		merged = append(merged, logEntry{al[i].a, v})
+	}
+	if n < len(al) || n < len(bl) {
+		// b's heap at the end of the common prefix; a's final heap
+		bAfterP := &State{heaps: map[string]string{k: bb}, log: map[string][]logEntry{k: bl[:n]}}
+		for _, en := range al[n:] {
+			other := f.logLoad(bAfterP, sort, en.a) // b's value of that cell: storing it back changes nothing in b
+			merged = append(merged, logEntry{en.a, f.c.define("mcell", sort, ite(cond, en.v, other))})
+		}
+		for _, en := range bl[n:] {
+			other := f.logLoad(a, sort, en.a) // a's final value of that cell
+			merged = append(merged, logEntry{en.a, f.c.define("mcell", sort, ite(cond, other, en.v))})
+		}
+	}
+	out.heaps[k] = ab
+	if out.log == nil {
+		out.log = map[string][]logEntry{}
+	}
+	out.log[k] = merged
+	if out.mat != nil {
+		delete(out.mat, k)
+	}
+}
+
 func hasDefers(fn *ssa.Function) bool {
 	for _, b := range fn.Blocks {
 		for _, in := range b.Instrs {
@@ -419,8 +480,34 @@ func (f *FnEnc) callWrites(fr *Frame, cc *ssa.CallCommon, depth int) bool {
 			"sync/atomic.LoadUint32", "sync/atomic.LoadUint64", "sync/atomic.LoadInt32", "sync/atomic.LoadInt64":
 			return false
 		}
-		if con != nil && con.Inline && depth < 4 && len(v.Blocks) > 0 {
+		if ((con != nil && con.Inline) || v.Parent() != nil) && depth < 4 && len(v.Blocks) > 0 {
 			return f.bodyWrites(v, depth+1)
+		}
+		return true
+	case *ssa.MakeClosure:
+		if fnv, ok := v.Fn.(*ssa.Function); ok && depth < 4 {
+			return f.bodyWrites(fnv, depth+1)
+		}
+		return true
+	case *ssa.UnOp:
+		// a closure held in a local variable
+		if a, ok := v.X.(*ssa.Alloc); ok && a.Referrers() != nil {
+			var target *ssa.Function
+			n := 0
+			for _, r := range *a.Referrers() {
+				if s, ok := r.(*ssa.Store); ok && s.Addr == a {
+					n++
+					switch sv := s.Val.(type) {
+					case *ssa.Function:
+						target = sv
+					case *ssa.MakeClosure:
+						target, _ = sv.Fn.(*ssa.Function)
+					}
+				}
+			}
+			if n == 1 && target != nil && depth < 4 {
+				return f.bodyWrites(target, depth+1)
+			}
 		}
 		return true
 	}
@@ -660,17 +747,14 @@ func (f *FnEnc) mergeStates(a, b *State, cond string) *State {
 	// lazily created heaps (maps) may exist in only one of the states
 	for k := range a.heaps {
 		if _, ok := out.heaps[k]; !ok {
-			out.heaps[k] = f.lazyHeap(b, k)
+			setHeap(out, k, f.lazyHeap(b, k))
 		}
 	}
-	for k, bh := range out.heaps {
-		ah, ok := a.heaps[k]
-		if !ok {
-			ah = f.lazyHeap(a, k)
+	for k := range out.heaps {
+		if _, ok := a.heaps[k]; !ok {
+			a.heaps[k] = f.lazyHeap(a, k)
 		}
-		if ah != bh {
-			out.heaps[k] = f.c.define("mH", f.heapSortOf(k), ite(cond, ah, bh))
-		}
+		f.mergeHeap(out, a, b, k, cond)
 	}
 	if a.alloc != b.alloc {
 		out.alloc = f.c.define("malloc", SInt, ite(cond, a.alloc, b.alloc))
